@@ -130,6 +130,10 @@ func (c WTLengthSliceWrapper) Read(data []byte, ptr unsafe.Pointer, wt plenccore
 	if n < 0 {
 		return 0, fmt.Errorf("corrupt data looking for WTSlice count")
 	}
+	if count > uint64(len(data)-n) {
+		// Every entry takes at least one byte for its length
+		return 0, fmt.Errorf("WTSlice count %d exceeds the length of the data", count)
+	}
 
 	// Now make sure we have enough capacity in the slice
 	h := (*sliceHeader)(ptr)
@@ -156,6 +160,9 @@ func (c WTLengthSliceWrapper) Read(data []byte, ptr unsafe.Pointer, wt plenccore
 			return 0, fmt.Errorf("invalid varint for slice entry %d", i)
 		}
 		offset += n
+		if s > uint64(len(data)-offset) {
+			return 0, fmt.Errorf("length %d of slice entry %d exceeds the length of the data", s, i)
+		}
 
 		ptr := unsafe.Add(h.Data, i*int(c.EltSize))
 		n, err := c.Underlying.Read(data[offset:offset+int(s)], ptr, plenccore.WTLength)
